@@ -353,7 +353,7 @@ fn run(ctx: &mut Ctx) {
 fn large_configs(tier: Tier) -> Vec<(usize, usize, usize)> {
     let lim = std::env::var("VERIF_C06_LARGE").ok().and_then(|v| v.parse::<usize>().ok());
     let mut v = vec![];
-    for (dim, q, t, om) in [(1usize, 13usize, 16usize, 8usize), (2, 10, 12, 6), (3, 9, 11, 5), (4, 8, 10, 4), (5, 7, 9, 4)] {
+    for (dim, q, t, om) in [(1usize, 14usize, 16usize, 8usize), (2, 11, 12, 6), (3, 10, 11, 5), (4, 9, 10, 4), (5, 8, 9, 4)] {
         v.push((dim, lim.unwrap_or(tier.pick(q, t)), om));
     }
     v
